@@ -1,4 +1,6 @@
 #![forbid(unsafe_code)]
+#![allow(unexpected_cfgs)]
+#![cfg_attr(undermoon_verif, recursion_limit = "256")]
 #![deny(
     clippy::panic,
     clippy::panic_in_result_fn,
